@@ -172,6 +172,9 @@ def run(program, rep, tier):
               line=getattr(bad[0], 'lineno', f.node.lineno) if bad else None)
     # ---- writers ------------------------------------------------------------------
     n_w = 0
+    from .util import methods_of, called_only_from
+    gate_only, _ = called_only_from(methods_of(program, H),
+                                    {'__call__', 'clear'})
     for g in program.all_functions():
         for n in ast.walk(g.node):
             tg = []
@@ -193,7 +196,7 @@ def run(program, rep, tier):
                 if isinstance(t, ast.Attribute) and t.attr in ('_cached',
                                                                '_cache'):
                     n_w += 1
-                    ok = g.cls is H and g.name in ('__call__', 'clear')
+                    ok = g.cls is H and g.name in gate_only
                     rep.check(ok, 'C12.writers', g.where, n,
                               'cache state written by __call__ / clear only',
                               'the cache flag/value of a handle is written '
